@@ -927,13 +927,6 @@ _BASE = ('<style>@page{size:200px 100px;margin:0}body{margin:0;font:20px/20px we
          'h1,div{display:block;font-size:20px;margin:0;font-weight:normal}</style>')
 
 
-def replay_anchor_double_transform():
-    """<h1 id=a> with a translation: the destination should be where the heading (and its bookmark) is."""
-    docs.quiet()
-    page = docs.render(_BASE + '<h1 id=a style="transform:translate(10px,20px)">one</h1>').pages[0]
-    return tuple(page.anchors['a'][:2]) != tuple(page.bookmarks[0][2])
-
-
 def replay_dests_not_byte_sorted():
     """ids `z` and `aé`: the keys of /Dests must be in the byte order of the written strings."""
     docs.quiet()
